@@ -4,8 +4,10 @@
   A node is a tree plus a path; `Tree.ancestorsOrSelf` gives `xot.ancestors(node)` (the node
   itself first).  The queries are defined on that chain, then lifted to `Tree × Path`:
 
-    is_prefix_defined, namespace_for_prefix, prefix_for_namespace (seen set; a repeated prefix
-    is skipped), full_name, name_ref / RefName::from_node, node_name,
+    is_prefix_defined, namespace_for_prefix, namespace_prefix / prefix_for_namespace (seen set;
+    a repeated prefix is skipped; `non_empty` passes over the empty prefix), prefix_for_name
+    (attribute node: non-empty prefix only; own no-namespace element name refused under a default
+    namespace), full_name, name_ref / RefName::from_node, node_name,
     node_name_ref, unresolved_namespaces (FullnameSerializer stack starting EMPTY; a name is
     unresolved when `element_prefix` / `attribute_prefix` fails), inherited_prefixes, deduplicate_namespaces (traverse + DeduplicateTracker +
     fix-up list + removal of namespace nodes).
@@ -37,55 +39,90 @@ def namespaceForPrefixChain : List Tree → Nat → Option Nat
     | some ns => if ns == Env.noNamespace then none else some ns
     | none => namespaceForPrefixChain rest p
 
-/-- Outcome of one inner `for (key, value) in …` loop of `prefix_for_namespace`:
+/-- Outcome of one inner `for (key, value) in …` loop of `namespace_prefix`:
     the function returned, or the loop ran to its end with this `seen` set. -/
 inductive PfnStep where
   | ret (r : Option Nat)
   | cont (seen : List Nat)
   deriving Repr, DecidableEq
 
-/-- Inner loop of `prefix_for_namespace` over one declaration list: a prefix seen before is
-    shadowed and skipped (`if !seen.insert(key) { continue; }`), otherwise it is recorded and
+/-- Inner loop of `namespace_prefix` over one declaration list: a prefix seen before is
+    shadowed and skipped (`if !seen.insert(key) { continue; }`), otherwise it is recorded;
+    `if non_empty && key == self.empty_prefix() { continue; }`; then
     `value == namespace → return Some(key)`. -/
-def pfnDecls (ns : Nat) : List Nat → List (Nat × Nat) → PfnStep
+def pfnDecls (ns : Nat) (nonEmpty : Bool) : List Nat → List (Nat × Nat) → PfnStep
   | seen, [] => .cont seen
   | seen, (k, v) :: rest =>
-    if seen.contains k then pfnDecls ns seen rest
+    if seen.contains k then pfnDecls ns nonEmpty seen rest
+    else if nonEmpty && k == Env.emptyPrefix then pfnDecls ns nonEmpty (k :: seen) rest
     else if v == ns then .ret (some k)
-    else pfnDecls ns (k :: seen) rest
+    else pfnDecls ns nonEmpty (k :: seen) rest
 
-/-- `prefix_for_namespace`: ancestors, then the base prefixes, then `None`. -/
-def pfnChain (ns : Nat) : List Nat → List Tree → Option Nat
+/-- `namespace_prefix`: ancestors, then the base prefixes, then `None`. -/
+def pfnChain (ns : Nat) (nonEmpty : Bool) : List Nat → List Tree → Option Nat
   | seen, [] =>
-    match pfnDecls ns seen basePrefixes with
+    match pfnDecls ns nonEmpty seen basePrefixes with
     | .ret r => r
     | .cont _ => none
   | seen, a :: rest =>
-    match pfnDecls ns seen a.nsDecls with
+    match pfnDecls ns nonEmpty seen a.nsDecls with
     | .ret r => r
-    | .cont seen' => pfnChain ns seen' rest
+    | .cont seen' => pfnChain ns nonEmpty seen' rest
 
-def prefixForNamespaceChain (chain : List Tree) (ns : Nat) : Option Nat := pfnChain ns [] chain
+/-- `namespace_prefix(node, namespace, non_empty)` (private): a prefix for the namespace in node
+    or ancestors; with `non_empty` the empty prefix is passed over (but still recorded as seen). -/
+def namespacePrefixChain (chain : List Tree) (ns : Nat) (nonEmpty : Bool) : Option Nat :=
+  pfnChain ns nonEmpty [] chain
+
+/-- `prefix_for_namespace(node, namespace)` = `namespace_prefix(node, namespace, false)`. -/
+def prefixForNamespaceChain (chain : List Tree) (ns : Nat) : Option Nat :=
+  namespacePrefixChain chain ns false
+
+def valueIsAttribute : Value → Bool
+  | .attribute _ _ => true
+  | _ => false
+
+def valueElementName : Value → Option Nat
+  | .element n => some n
+  | _ => none
+
+/-- `is_attribute_node(node)`; the node is the head of its ancestor-or-self chain. -/
+def isAttributeNodeChain (chain : List Tree) : Bool :=
+  (chain.head?.map (fun t => valueIsAttribute t.value)).getD false
+
+/-- `self.element(node).map(|e| e.name())`. -/
+def elementNameChain (chain : List Tree) : Option Nat :=
+  chain.head?.bind (fun t => valueElementName t.value)
+
+/-- `prefix_for_name(node, name)` (crate-private): the prefix to write `name` with in the scope of
+    `node`.  A name in no namespace gets the empty prefix, except that the node's OWN ELEMENT name
+    is refused (`MissingPrefix("")`) where `namespace_for_prefix(node, empty_prefix)` is `Some(_)`;
+    a name in a namespace gets `namespace_prefix(node, namespace, is_attribute_node(node))`. -/
+def prefixForNameChain (env : Env) (chain : List Tree) (name : Nat) : Except XotError Nat :=
+  let ns := env.nsOfName name
+  let isAttribute := isAttributeNodeChain chain
+  if ns == Env.noNamespace then
+    let isOwnElementName := elementNameChain chain == some name
+    if isOwnElementName && (namespaceForPrefixChain chain Env.emptyPrefix).isSome then
+      .error (.missingPrefix Env.noNamespace)
+    else .ok Env.emptyPrefix
+  else match namespacePrefixChain chain ns isAttribute with
+    | some p => .ok p
+    | none => .error (.missingPrefix ns)
 
 /-- `full_name(node, name)`. -/
 def fullNameChain (env : Env) (chain : List Tree) (name : Nat) : Except XotError Str :=
-  let ns := env.nsOfName name
   let loc := env.localName name
-  if ns == Env.noNamespace then .ok loc
-  else match prefixForNamespaceChain chain ns with
-    | some p =>
-      let ps := env.prefixStr p
-      if !ps.isEmpty then .ok (ps ++ [':'] ++ loc) else .ok loc
-    | none => .error (.missingPrefix ns)
+  match prefixForNameChain env chain name with
+  | .error e => .error e
+  | .ok p =>
+    let ps := env.prefixStr p
+    if !ps.isEmpty then .ok (ps ++ [':'] ++ loc) else .ok loc
 
-/-- `name_ref(name, context)` = `RefName::from_node`: the `prefix_id` stored in the `RefName`. -/
+/-- `name_ref(name, context)` = `RefName::from_node`: the `prefix_id` stored in the `RefName`
+    (`let prefix_id = xot.prefix_for_name(node, name_id)?;`). -/
 def nameRefChain (env : Env) (chain : List Tree) (name : Nat) : Except XotError Nat :=
-  let ns := env.nsOfName name
-  if ns != Env.noNamespace then
-    match prefixForNamespaceChain chain ns with
-    | some p => .ok p
-    | none => .error (.missingPrefix ns)
-  else .ok Env.emptyPrefix
+  prefixForNameChain env chain name
 
 /-- `node_name`. -/
 def nodeName : Value → Option Nat
@@ -202,8 +239,14 @@ def isPrefixDefined (t : Tree) (path : Path) (p : Nat) : Option Bool :=
 def namespaceForPrefix (t : Tree) (path : Path) (p : Nat) : Option (Option Nat) :=
   (t.ancestorsOrSelf path).map (namespaceForPrefixChain · p)
 
+def namespacePrefix (t : Tree) (path : Path) (ns : Nat) (nonEmpty : Bool) : Option (Option Nat) :=
+  (t.ancestorsOrSelf path).map (namespacePrefixChain · ns nonEmpty)
+
 def prefixForNamespace (t : Tree) (path : Path) (ns : Nat) : Option (Option Nat) :=
   (t.ancestorsOrSelf path).map (prefixForNamespaceChain · ns)
+
+def prefixForName (env : Env) (t : Tree) (path : Path) (name : Nat) : Option (Except XotError Nat) :=
+  (t.ancestorsOrSelf path).map (prefixForNameChain env · name)
 
 def fullName (env : Env) (t : Tree) (path : Path) (name : Nat) : Option (Except XotError Str) :=
   (t.ancestorsOrSelf path).map (fullNameChain env · name)
